@@ -71,12 +71,12 @@ theorem chain {cfg : Cfg} {env : Env} (H : Hyp cfg env) (b : Node) (hB : DagOK b
     let n1 := convDone a c.cid
     have hn1dag : n1.dag = a.dag := rfl
     cases hdec : env.decode (ibltSet cfg a.dag (Nat.min (lcOf b.dag) lcq)) (.ofSet (ibltSet cfg b.dag lcq)) with
-    | err => exact absurd hdec (H.dc.noerr _ _)
+    | err => exact absurd hdec (H.dc.noerr _ _ (ibltSet_nodup ha _) (ibltSet_nodup hB _))
     | fail =>
       simp only
       have hdiff : ¬ SameUpTo cfg a.dag b.dag q := by
         intro hs
-        obtain ⟨m, hm⟩ := H.dc.empty (ibltSet cfg a.dag (Nat.min (lcOf b.dag) lcq)) (ibltSet cfg b.dag lcq) (fun r => by rw [hloc, hpeer]; exact hs r)
+        obtain ⟨m, hm⟩ := H.dc.empty (ibltSet cfg a.dag (Nat.min (lcOf b.dag) lcq)) (ibltSet cfg b.dag lcq) (ibltSet_nodup ha _) (ibltSet_nodup hB _) (fun r => by rw [hloc, hpeer]; exact hs r)
         rw [hm] at hdec; cases hdec
       by_cases hfirst : Nat.min (lcOf b.dag) lcq < cfg.pageSize
       · -- first page does not decode: ask for the first page
@@ -131,7 +131,7 @@ theorem chain {cfg : Cfg} {env : Env} (H : Hyp cfg env) (b : Node) (hB : DagOK b
           · exact hhigh q' h1 (by omega)
     | ok missing =>
       simp only
-      have hex := H.dc.exact _ _ _ hdec
+      have hex := H.dc.exact _ _ _ (ibltSet_nodup ha _) (ibltSet_nodup hB _) hdec
       have hmiss : ∀ r, r ∈ missing ↔ (UpTo cfg b.dag q r ∧ ¬ UpTo cfg a.dag q r) := by
         intro r; rw [hex r, hpeer, hloc]
       by_cases hm : missing = []
